@@ -279,7 +279,7 @@ func (x *c20SX) sumIDLoop(s ast.Node, since, id int, v c20V, pre *c20St, ends []
 			nv, _ := e.at(o)
 			var app c20Sym
 			switch {
-			case from1 && (old.k == c20kBytes || old.k == c20kStr) && nv.k == old.k && c20IsFirstElem(c20MergeLits(old.sym), v) && c20HasPrefix(nv.sym, old.sym):
+			case from1 && (old.k == c20kBytes || old.k == c20kStr) && nv.k == old.k && c20EndsWithFirstElem(old.sym, v) && c20HasPrefix(nv.sym, old.sym):
 				// the first element was written before the loop (peeled iteration)
 				app = nv.sym[len(old.sym):]
 			case from1:
@@ -288,6 +288,9 @@ func (x *c20SX) sumIDLoop(s ast.Node, since, id int, v c20V, pre *c20St, ends []
 				app = nv.sym
 			case old.k == c20kStr && nv.k == c20kStr && len(c20MergeLits(old.sym)) == 0:
 				app = nv.sym
+			case (old.k == c20kBytes || old.k == c20kStr) && nv.k == old.k && old.id == 0 && c20HasPrefix(nv.sym, old.sym):
+				// the buffer already holds the text before the id list (the URL is built in one buffer)
+				app = nv.sym[len(old.sym):]
 			case old.k == c20kList && nv.k == c20kList && old.star == nil && !old.in && len(old.elems) == 0 && len(nv.elems) == 1:
 				app = nv.elems[0]
 			default:
@@ -313,7 +316,7 @@ func (x *c20SX) sumIDLoop(s ast.Node, since, id int, v c20V, pre *c20St, ends []
 	if from1 && !buf.none() && later != nil {
 		// the peeled first iteration wrote the first id alone
 		old, _ := pre.at(buf)
-		h0 := *c20MergeLits(old.sym)[0].hole
+		h0 := *old.sym[len(old.sym)-1].hole
 		h0.fn = "elem"
 		first = &c20Sym{{hole: &h0}}
 	}
@@ -339,7 +342,11 @@ func (x *c20SX) sumIDLoop(s ast.Node, since, id int, v c20V, pre *c20St, ends []
 		if l[1].hole.verb != f[0].hole.verb {
 			h.verb = "mixed"
 		}
-		pre.put(buf, c20V{k: old.k, sym: c20Sym{{hole: h}}, typ: old.typ, tag: old.tag})
+		prefix := append(c20Sym(nil), old.sym...)
+		if from1 && len(prefix) > 0 {
+			prefix = prefix[:len(prefix)-1] // the peeled first id becomes part of the list
+		}
+		pre.put(buf, c20V{k: old.k, sym: append(prefix, c20Tok{hole: h}), typ: old.typ, tag: old.tag})
 	case len(f) == 1 && isElem(f[0]) && len(l) == 1 && isElem(l[0]) && old.k == c20kList:
 		h.fn, h.verb = "ids", f[0].hole.verb
 		old.star = h
